@@ -1,0 +1,48 @@
+//go:build verif
+
+// Contracts for package proto (comment-only; compiled only with the build tag "verif",
+// read by /verif/engine). Property C18 (codec dispatch).
+
+package proto
+
+//@ import gproto "google.golang.org/protobuf/proto"
+
+// what a message's own (generated) marshaller produces / accepts: uninterpreted, per message object
+//@ uninterp func vtBytes(m Iface) Slice
+//@ uninterp func vtErr(m Iface) error
+//@ iface proto.vtprotoMessage.MarshalVT
+//@   assumed
+//@   params m
+//@   results b, err
+//@   ensures b == vtBytes(m) && err == vtErr(m)
+//@   modifies nothing
+//@ ghostfield any.decodedFrom Slice
+//@ ghostfield any.decodedUnsafe Bool
+//@ iface proto.vtprotoUnsafeMessage.UnmarshalVTUnsafe
+//@   assumed
+//@   params m, data
+//@   ensures m.decodedFrom == data && m.decodedUnsafe
+//@   modifies m.decodedFrom, m.decodedUnsafe
+//@ iface proto.vtprotoMessage.UnmarshalVT
+//@   assumed
+//@   params m, data
+//@   ensures m.decodedFrom == data && !m.decodedUnsafe
+//@   modifies m.decodedFrom, m.decodedUnsafe
+//@ func proto.Marshal
+//@   assumed
+//@   modifies nothing
+//@ func proto.Unmarshal
+//@   assumed
+//@   modifies nothing
+
+// Marshal: a vtproto message is encoded by its own generated marshaller, result and error passed through
+//@ func (Codec).Marshal
+//@   results b, err
+//@   ensures [C18.codec.marshal] typeIs(v, vtprotoMessage) ==> b == vtBytes(v) && err == vtErr(v)
+//@   modifies nothing
+// Unmarshal: the message is decoded from exactly the bytes handed in (the unsafe, aliasing variant
+// when the message offers it)
+//@ func (Codec).Unmarshal
+//@   ensures [C18.codec.unmarshal] typeIs(v, vtprotoUnsafeMessage) || typeIs(v, vtprotoMessage) ==> v.decodedFrom == data
+//@   ensures [C18.codec.unsafe] typeIs(v, vtprotoUnsafeMessage) ==> v.decodedUnsafe
+//@   modifies v.decodedFrom, v.decodedUnsafe
